@@ -50,9 +50,10 @@ claim("C07",
       "raw modules/8 by the standard's closed form; at each of the four levels the block groups add up to that total, second group one data codeword longer; capacity ordering; anchor capacities; "
       "alignment centres (count v/7+2, first 6, last 4v+10, even equal steps) and the encoder's padded copy of them; all 32 format words and 34 version words equal the BCH remainder with "
       "generator 0x537 / 0x1f25 (mask 0x5412); the encoder's block-size arithmetic reproduces every table row. Function contracts: the eight decoder mask predicates and "
-      "MaskUtil_getDataMaskBit are proved equal to the ISO mask formulas; getNumDataBytesAndNumECBytesForBlockID is proved against its arithmetic specification. "
+      "MaskUtil_getDataMaskBit are proved equal to the ISO mask formulas; calculateBCHCode is proved to be the GF(2) remainder (the same spec function as the table lemmas) and makeTypeInfoBits / makeVersionInfoBits to emit "
+      "exactly (level, mask).BCH xor 101010000010010 and version.BCH, most significant bit first; getNumDataBytesAndNumECBytesForBlockID is proved against its arithmetic specification. "
       "Not decided: EC block counts against the standard's table entry by entry (no independent copy; the structural invariants pin every entry up to compensating errors), "
-      "calculateBCHCode itself, function-pattern embedding, and matrix_lib == matrix_ref for whole symbols.",
+      "function-pattern embedding (embedBasicPatterns, embedTypeInfo coordinates), and matrix_lib == matrix_ref for whole symbols.",
       "tables dumped from the compiled package on every run; products of symbolic integers uninterpreted in function VCs (mask 5-7 claims are conditional on i*j >= 0).")
 claim("C01",
       "Mirror pairs of the QR codec, each proved for all inputs (the composition through placement, interleaving and Reed-Solomon is not): "
